@@ -894,6 +894,11 @@ func parseMovementValue(p *Parser, allowMultiple bool, closingToken token.Type) 
 	for p.curToken.Type != closingToken {
 		if p.curToken.Type == token.PORYSWITCH {
 			poryswitchCommands, err := p.parsePoryswitchListStatement(func(p *Parser, allowMultiple bool) ([]token.Token, error) {
+				if allowMultiple {
+					// A case with multiple movement commands is wrapped in curly braces,
+					// regardless of how the surrounding list is closed.
+					return parseMovementValue(p, allowMultiple, token.RBRACE)
+				}
 				return parseMovementValue(p, allowMultiple, closingToken)
 			})
 			if err != nil {
